@@ -73,10 +73,15 @@ SchedInit0 ==
    part   |-> <<>>,        \* par_reduce only: sequence of <<worker, partial sum>> in first-touch order
    rpos   |-> 0,           \* next row of the running sequential reduction
    racc   |-> Zero,        \* its accumulator
-   nred   |-> 0]           \* reductions completed on the current output (bookkeeping)
+   nred   |-> 0,           \* reductions completed on the current output (bookkeeping)
+   nval   |-> 0,           \* reduction results compared with the sequential fold (0 / 1)
+   coarse |-> FALSE,       \* trace validation only: a loop too large to be logged row by row --
+   rcoarse |-> FALSE]      \*   its rows are not observed (begin / barrier / reductions still are)
 
 \* event codes (harness/src/bin/c20.rs: compact_hook)
 CBegin == 1   CRow == 2   CEnd == 3   CRedBegin == 4   CRedRow == 5   CRedEnd == 6   CSum == 7
+CBeginC == 8  CRedBeginC == 9       \* coarse loops (rows not logged)
+CVal == 10                          \* arg = 1 iff the value the code used equals the sequential fold
 
 PartOf(st, w) == IF \E q \in DOMAIN st.part : st.part[q][1] = w
                    THEN (CHOOSE q \in DOMAIN st.part : st.part[q][1] = w) ELSE 0
@@ -96,37 +101,54 @@ SchedStep(st, code, w, arg, mode) ==
     IF st.phase \in {"idle", "joined"} /\ arg >= 0
       THEN [st EXCEPT !.phase = "par", !.caller = w, !.n = arg,
                       !.out = [q \in 1..arg |-> Undef], !.writer = [q \in 1..arg |-> -1],
-                      !.part = <<>>, !.rpos = 0, !.racc = Zero, !.nred = 0]
+                      !.part = <<>>, !.rpos = 0, !.racc = Zero, !.nred = 0, !.nval = 0,
+                      !.coarse = FALSE, !.rcoarse = FALSE]
+      ELSE Bad
+  ELSE IF code = CBeginC THEN
+    IF st.phase \in {"idle", "joined"} /\ arg >= 0
+      THEN [st EXCEPT !.phase = "par", !.caller = w, !.n = arg, !.out = <<>>, !.writer = <<>>,
+                      !.part = <<>>, !.rpos = 0, !.racc = Zero, !.nred = 0, !.nval = 0,
+                      !.coarse = TRUE, !.rcoarse = FALSE]
       ELSE Bad
   ELSE IF code = CRow THEN
     \* any worker, any order -- but each row exactly once and only before the barrier
-    IF st.phase = "par" /\ arg \in 0..(st.n - 1) /\ st.out[arg + 1] = Undef
+    IF st.phase = "par" /\ ~st.coarse /\ arg \in 0..(st.n - 1) /\ st.out[arg + 1] = Undef
       THEN [st EXCEPT !.out[arg + 1] = F(arg), !.writer = IF mode = "trace" THEN st.writer ELSE [st.writer EXCEPT ![arg + 1] = w],
                       !.part = IF mode = "par_reduce" THEN AddPart(st, w, F(arg)) ELSE st.part]
       ELSE Bad
   ELSE IF code = CEnd THEN
     \* barrier: taken by the caller, only when every row has been written
-    IF st.phase = "par" /\ w = st.caller /\ \A q \in 1..st.n : st.out[q] # Undef
+    IF st.phase = "par" /\ w = st.caller /\ (st.coarse \/ \A q \in 1..st.n : st.out[q] # Undef)
       THEN [st EXCEPT !.phase = "joined",
                       !.racc = IF mode = "par_reduce" THEN CombineParts(st.part, Len(st.part)) ELSE st.racc]
       ELSE Bad
   ELSE IF code = CRedBegin THEN
     IF st.phase = "joined" /\ w = st.caller /\ arg = st.n
-      THEN [st EXCEPT !.phase = "red", !.rpos = 0, !.racc = Zero]
+      THEN [st EXCEPT !.phase = "red", !.rpos = 0, !.racc = Zero, !.rcoarse = FALSE]
+      ELSE Bad
+  ELSE IF code = CRedBeginC THEN
+    IF st.phase = "joined" /\ w = st.caller /\ arg = st.n
+      THEN [st EXCEPT !.phase = "red", !.rpos = 0, !.racc = Zero, !.rcoarse = TRUE]
       ELSE Bad
   ELSE IF code = CRedRow THEN
     \* the sequential consumer reads row rpos, on the caller's thread
-    IF st.phase = "red" /\ w = st.caller /\ arg = st.rpos /\ arg < st.n
+    IF st.phase = "red" /\ ~st.rcoarse /\ ~st.coarse /\ w = st.caller /\ arg = st.rpos /\ arg < st.n
       THEN [st EXCEPT !.rpos = arg + 1, !.racc = IF mode = "trace" THEN st.racc ELSE Plus(st.racc, st.out[arg + 1])]
       ELSE Bad
   ELSE IF code = CRedEnd THEN
-    IF st.phase = "red" /\ w = st.caller /\ st.rpos = st.n
-      THEN [st EXCEPT !.phase = "joined", !.nred = st.nred + 1]
+    IF st.phase = "red" /\ w = st.caller /\ (st.rcoarse \/ st.rpos = st.n)
+      THEN [st EXCEPT !.phase = "joined", !.nred = st.nred + 1, !.rcoarse = FALSE]
       ELSE Bad
   ELSE IF code = CSum THEN
     \* whole-array reduction (dists.sum(), counting memberships): after the barrier, by the caller
     IF st.phase = "joined" /\ w = st.caller /\ arg = st.n
       THEN [st EXCEPT !.racc = IF mode = "seq_reduce" THEN LeftFoldRows(st.n) ELSE st.racc, !.nred = st.nred + 1]
+      ELSE Bad
+  ELSE IF code = CVal THEN
+    \* the result of a reduction, as the code uses it, is compared with the sequential fold of the
+    \* joined output: after the barrier and after the reduction was reported, by the caller, and equal
+    IF st.phase = "joined" /\ w = st.caller /\ st.nred > 0 /\ arg = 1
+      THEN [st EXCEPT !.nval = 1]
       ELSE Bad
   ELSE Bad
 
@@ -139,8 +161,12 @@ SRedRow == (\E w \in Workers : sched' = SchedStep(sched, CRedRow, w, sched.rpos,
 SRedEnd == (\E w \in Workers : sched' = SchedStep(sched, CRedEnd, w, 0, Mode) /\ sched' # Bad) /\ UNCHANGED hs
 SSum == (\E w \in Workers : sched.nred = 0 /\ sched' = SchedStep(sched, CSum, w, sched.n, Mode) /\ sched' # Bad) /\ UNCHANGED hs
 
+\* (the hook recomputes the sequential fold: equal iff the accumulator is the left fold)
+SVal == (\E w \in Workers : sched.nval = 0 /\
+           sched' = SchedStep(sched, CVal, w, IF sched.racc = LeftFoldRows(sched.n) THEN 1 ELSE 0, Mode) /\ sched' # Bad) /\ UNCHANGED hs
+
 SchedInit == sched = SchedInit0 /\ hs = [pc |-> "off"]
-SchedNext == SBegin \/ SWrite \/ SBarrier \/ SRedBegin \/ SRedRow \/ SRedEnd \/ SSum
+SchedNext == SBegin \/ SWrite \/ SBarrier \/ SRedBegin \/ SRedRow \/ SRedEnd \/ SSum \/ SVal
 
 \* the state at the barrier does not depend on the schedule: every cell holds F(row)
 InvBarrier ==
@@ -154,6 +180,9 @@ InvCells ==
 RefResult(n) == IF Mode = "par_reduce" THEN Plus(Zero, LeftFoldRows(n)) ELSE LeftFoldRows(n)
 InvReduce ==
   (sched.phase = "joined" /\ (sched.nred > 0 \/ Mode = "par_reduce")) => sched.racc = RefResult(sched.n)
+\* a reduction result that passed the comparison is the left fold; the design never uses coarse loops
+InvVal == sched.nval > 0 => (sched.racc = LeftFoldRows(sched.n) /\ sched.nred > 0)
+InvFine == ~sched.coarse /\ ~sched.rcoarse
 \* only the caller closes the loop and reduces
 InvCaller == sched.phase # "idle" => sched.caller \in Workers
 
